@@ -109,6 +109,36 @@ Theorem C01_entry_points_agree :
 Proof. exact (entry_points_agree gen_sort_facts gen_sc). Qed.
 Print Assumptions C01_entry_points_agree.
 
+(** the time-course form ([get_right_hand_side_time_course]): one row of the argument table of
+    [get_args_time_course] (selected by [get_arg_names(include_time=False)]: no time column) with
+    the time put back ([variables.to_dict() | {"time": time}]) gives the same right-hand side as
+    the table of [_get_args] itself -- also for computed coefficients that read the time *)
+Theorem C01_time_course_form :
+  forall fsem fsemN m c vars t e tab,
+    WF m -> create_cache fsem fsemN gen_sort_facts m = Val c ->
+    incl (keys vars) (keys (m_var m)) ->
+    get_args_raw fsem fsemN m c vars t = Val e ->
+    select (arg_names m c false) e = Val tab ->
+    rhs_of_args fsem c (keys (m_var m)) ((time_name, t) :: env_of_dict tab [])
+    = rhs_of_args fsem c (keys (m_var m)) e.
+Proof. exact (time_course_form gen_sort_facts gen_sc). Qed.
+Print Assumptions C01_time_course_form.
+
+(** fluxes and the full argument table are selections of the one table of [_get_args] (so they
+    show the numbers the right-hand side was computed from), and whenever that table exists the
+    fluxes exist: every reaction and surrogate flux is bound in it *)
+Theorem C01_fluxes_and_args_read_the_same_table :
+  forall fsem fsemN m c vars t e,
+    WF m -> create_cache fsem fsemN gen_sort_facts m = Val c ->
+    incl (keys vars) (keys (m_var m)) ->
+    get_args_raw fsem fsemN m c vars t = Val e ->
+    (exists fl, get_fluxes fsem fsemN m c vars t = Val fl /\ keys fl = flux_names m
+                /\ forall k v, In (k, v) fl -> lookup k e = Some v)
+    /\ (forall tab, get_args fsem fsemN m c vars t = Val tab ->
+          keys tab = arg_names m c true /\ forall k v, In (k, v) tab -> lookup k e = Some v).
+Proof. exact (fluxes_args_same_table gen_sort_facts gen_sc). Qed.
+Print Assumptions C01_fluxes_and_args_read_the_same_table.
+
 (** non-vacuity: the model of ExModel.v (derived chain 6 -> 7 -> 8, derived 15 reading a data
     set, reaction 9 with a numeric and a computed coefficient, reaction 10 with a state-dependent
     coefficient, 2-output surrogate 11 with flux 12, assignment-defined parameter 2 and variable 4,
